@@ -1129,42 +1129,68 @@ pub fn bfs_with(
             stats.depth_completed = max_depth;
             break;
         }
-        let results: Vec<(u64, Vec<(Node, [u8; 32])>)> = frontier
-            .par_iter()
-            .map(|n| {
-                let acts = actions(n);
-                let mut out = vec![];
-                let mut t = 0u64;
-                for a in &acts {
-                    t += 1;
-                    if let StepOut::Next(c) = eng.step(n, a) {
-                        on_successor(n, a, &c);
-                        let k = c.key();
-                        out.push((c, k));
+        // the frontier is expanded in chunks so that the state and memory caps can stop a level part-way
+        let mut next = vec![];
+        let mut capped_mid_level = false;
+        for chunk in frontier.chunks(20_000) {
+            let results: Vec<(u64, Vec<(Node, [u8; 32])>)> = chunk
+                .par_iter()
+                .map(|n| {
+                    let acts = actions(n);
+                    let mut out = vec![];
+                    let mut t = 0u64;
+                    for a in &acts {
+                        t += 1;
+                        if let StepOut::Next(c) = eng.step(n, a) {
+                            on_successor(n, a, &c);
+                            let k = c.key();
+                            out.push((c, k));
+                        }
+                    }
+                    (t, out)
+                })
+                .collect();
+            for (t, succ) in results {
+                stats.transitions += t;
+                for (c, k) in succ {
+                    if seen.insert(k) {
+                        visit(&c);
+                        eng.run.state();
+                        next.push(c);
                     }
                 }
-                (t, out)
-            })
-            .collect();
-        let mut next = vec![];
-        for (t, succ) in results {
-            stats.transitions += t;
-            for (c, k) in succ {
-                if seen.insert(k) {
-                    visit(&c);
-                    eng.run.state();
-                    next.push(c);
-                }
             }
+            let rss_gb = rss_bytes() as f64 / (1u64 << 30) as f64;
+            if seen.len() > max_states || rss_gb > 20.0 {
+                capped_mid_level = true;
+                eng.run.cap_hit(&format!("cap reached while expanding depth {} ({} states, {:.1} GiB resident): depth {} is complete, depth {} only partly", depth, seen.len(), rss_gb, depth - 1, depth));
+                break;
+            }
+        }
+        if capped_mid_level {
+            stats.states += next.len() as u64;
+            stats.frontier_sizes.push(next.len());
+            stats.depth_completed = depth - 1;
+            return stats;
         }
         stats.states += next.len() as u64;
         stats.frontier_sizes.push(next.len());
         stats.depth_completed = depth;
         frontier = next;
+        // resident-set cap: a capped run reports the bound it completed, it never produces a verdict
+        let rss_gb = rss_bytes() as f64 / (1u64 << 30) as f64;
+        if rss_gb > 20.0 {
+            eng.run.cap_hit(&format!("resident set {:.1} GiB above the 20 GiB cap after completing depth {}", rss_gb, depth));
+            break;
+        }
         if seen.len() > max_states {
             eng.run.cap_hit(&format!("state cap {} reached after completing depth {}", max_states, depth));
             break;
         }
     }
     stats
+}
+
+pub fn rss_bytes() -> u64 {
+    std::fs::read_to_string("/proc/self/statm").ok().and_then(|s| s.split_whitespace().nth(1).and_then(|p| p.parse::<u64>().ok())).map(|pages| pages * 4096).unwrap_or(0)
 }
